@@ -88,6 +88,12 @@ class System:
             xs = [OBJ[x] for x in a["xs"]]
             p.objects = {KEY[i]: x for i, x in enumerate(xs, 1)} if self.dict else xs
             r = None
+        elif n == "setvaluename":
+            try:
+                self.owner.s = [KEY[a["k"]]] if self.multi else KEY[a["k"]]
+                return 1
+            except ValueError:
+                return 0
         elif n in ("setvalue", "setvalues"):
             v = [OBJ[x] for x in a["vs"]] if n == "setvalues" else OBJ[a["v"]]
             try:
@@ -147,4 +153,4 @@ def replay(beh, opts):
 
 def _replay1(beh, opts):
     return _simple.run(System, beh, opts,
-                       nontrivial=lambda b: any(s["act"]["name"] not in ("init", "setvalue", "setvalues", "grab") for s in b["steps"]))
+                       nontrivial=lambda b: any(s["act"]["name"] not in ("init", "setvalue", "setvalues", "setvaluename", "grab") for s in b["steps"]))
